@@ -21,8 +21,12 @@ import Mathlib.Data.List.Nodup
 * `picked_once`: with a detector that is right inside block cores, the concatenated result contains
   every particle exactly once and nothing else.
 * `numpy_is_one_chunk`: a numpy image is the single-chunk case of the same function.
+* `local_comp`, `window_agrees`, `blocks_agree`, `blob_pipeline_chunk_independent`: a pipeline of local
+  operators (filter, maximum decision, plateau labelling) computed on a block equals the whole-image
+  pipeline on the block's core once the overlap covers the summed radii — for any boundary mode.
 * `depth_clamped`, `log_depth_covers`, `dog_depth_covers`, `tm_landscape_covers`: the overlap depths are
-  large enough for the pickers' exclusion radii (LoG/DoG: `ceil(2σ) ≥ σ`; template matching: the score
+  large enough (LoG/DoG: kernel radius `int(4σ+0.5)` of scipy's Gaussian, plus the search radius `ceil σ`,
+  plus one voxel; template matching: the score
   landscape of a block covers its core plus `ceil(min_distance)` positions on both sides, for odd and
   even templates).
 * `max_filter_center`, `max_filter_within_radius`: the footprint of the local-maximum filter contains its
@@ -218,18 +222,103 @@ theorem depth_clamped (s d : Int) : pickDepthClamp s d ≤ s ∧ pickDepthClamp 
   unfold pickDepthClamp Py.imin
   split <;> omega
 
-/-- LoG: maxima are compared within `σ` px, the blocks overlap by `ceil(2σ) ≥ σ` px -/
-theorem log_depth_covers (sigma scale : Rat) (h : 0 ≤ sigma / scale) :
-    (logDepth sigma scale).1 ≤ ((logDepth sigma scale).2 : Rat) := by
-  simp only [logDepth]
-  have := Py.le_ceil (sigma / scale * 2)
-  linarith
+/-! ### LoG / DoG: the block-wise response and maximum decision equal the whole-image ones
 
-theorem dog_depth_covers (sigma scale : Rat) (h : 0 ≤ sigma / scale) :
-    (dogDepth sigma scale).1 ≤ ((dogDepth sigma scale).2 : Rat) := by
+The pickers run `filter → is-local-maximum → label plateaus` on every block. Each stage is a local
+operator; their composition is local with the sum of the radii (`local_comp`), and a local operator run
+on a window gives the whole-image value wherever the window reaches `R` voxels to both sides
+(`window_agrees`) — whatever the filter's boundary mode invents beyond the window. The depths computed by
+`get_params_and_depth` are at least the Gaussian kernel radius (scipy: `int(4σ + 0.5)`) plus the search
+radius of `find_maxima` (`ceil σ`) plus one voxel for the plateau labelling. -/
+
+theorem local_comp {α β γ : Type} (R1 R2 : Int) (F : (Int → α) → Int → β) (G : (Int → β) → Int → γ)
+    (hF : LocalOp R1 F) (hG : LocalOp R2 G) : LocalOp (R1 + R2) (fun f => G (F f)) := by
+  intro f g q h
+  apply hG
+  intro p hp1 hp2
+  apply hF
+  intro r hr1 hr2
+  apply h <;> omega
+
+theorem local_mono {α β : Type} (R R' : Int) (hR : R ≤ R') (F : (Int → α) → Int → β) (hF : LocalOp R F) :
+    LocalOp R' F := by
+  intro f g q h
+  apply hF
+  intro p hp1 hp2
+  apply h <;> omega
+
+/-- a block holding the original voxels `[lo, hi)` (`blk` agrees with the image `img` there and is whatever
+the boundary mode makes of it elsewhere) with overlap depth `D ≥ R`: at every position of the core
+`[lo + D, hi - D)` the operator computed on the block equals the operator computed on the whole image. -/
+theorem window_agrees {α β : Type} (R D lo hi : Int) (F : (Int → α) → Int → β) (hF : LocalOp R F) (hD : R ≤ D)
+    (img blk : Int → α) (hblk : ∀ p, lo ≤ p → p < hi → blk p = img p) (q : Int) (h1 : lo + D ≤ q) (h2 : q < hi - D) :
+    F blk q = F img q := by
+  apply hF
+  intro p hp1 hp2
+  apply hblk <;> omega
+
+/-- two blocks (any two chunkings) agree with each other on positions in both cores -/
+theorem blocks_agree {α β : Type} (R D lo hi lo' hi' : Int) (F : (Int → α) → Int → β) (hF : LocalOp R F) (hD : R ≤ D)
+    (img blk blk' : Int → α) (hblk : ∀ p, lo ≤ p → p < hi → blk p = img p)
+    (hblk' : ∀ p, lo' ≤ p → p < hi' → blk' p = img p) (q : Int)
+    (h1 : lo + D ≤ q) (h2 : q < hi - D) (h1' : lo' + D ≤ q) (h2' : q < hi' - D) :
+    F blk q = F blk' q := by
+  rw [window_agrees R D lo hi F hF hD img blk hblk q h1 h2,
+      window_agrees R D lo' hi' F hF hD img blk' hblk' q h1' h2']
+
+theorem gauss_radius_le_ceil (s : Rat) : scipyGaussRadius s ≤ Py.ceil (s * 4) := by
+  unfold scipyGaussRadius
+  have h1 := Py.floor_le (4 * s + 1 / 2)
+  have h2 := Py.le_ceil (s * 4)
+  have h3 : ((Py.floor (4 * s + 1 / 2) : Int) : Rat) < ((Py.ceil (s * 4) : Int) : Rat) + 1 := by linarith
+  have h4 : Py.floor (4 * s + 1 / 2) < Py.ceil (s * 4) + 1 := by exact_mod_cast h3
+  omega
+
+/-- LoG: the overlap covers the kernel radius of `gaussian_laplace`, the search radius `ceil σ` of
+`find_maxima` and one more voxel (plateau labelling) -/
+theorem log_depth_covers (sigma scale : Rat) :
+    scipyGaussRadius (logDepth sigma scale).1 + Py.ceil (logDepth sigma scale).1 + 1 ≤ (logDepth sigma scale).2 := by
+  simp only [logDepth]
+  have := gauss_radius_le_ceil (sigma / scale)
+  omega
+
+/-- DoG: the same with the kernel radius of the wider Gaussian (`sigma_high`) -/
+theorem dog_depth_covers (sigma_low sigma_high scale : Rat) :
+    scipyGaussRadius (dogDepth sigma_low sigma_high scale).2.1 + Py.ceil (dogDepth sigma_low sigma_high scale).1 + 1
+      ≤ (dogDepth sigma_low sigma_high scale).2.2 := by
   simp only [dogDepth]
-  have := Py.le_ceil (sigma / scale * 2)
-  linarith
+  have := gauss_radius_le_ceil (sigma_high / scale)
+  omega
+
+/-- the narrower Gaussian of the DoG has the smaller kernel -/
+theorem gauss_radius_mono (s t : Rat) (h : s ≤ t) : scipyGaussRadius s ≤ scipyGaussRadius t := by
+  unfold scipyGaussRadius
+  have h1 := Py.floor_le (4 * s + 1 / 2)
+  have h2 : (4 * t + 1 / 2 : Rat) < ((Py.floor (4 * t + 1 / 2) : Int) : Rat) + 1 := Py.lt_floor_add_one _
+  have h3 : ((Py.floor (4 * s + 1 / 2) : Int) : Rat) < ((Py.floor (4 * t + 1 / 2) : Int) : Rat) + 1 := by linarith
+  have h4 : Py.floor (4 * s + 1 / 2) < Py.floor (4 * t + 1 / 2) + 1 := by exact_mod_cast h3
+  omega
+
+/-- the LoG pipeline of one block: response (radius `scipyGaussRadius σ`), then the maximum decision
+(radius `ceil σ`), then the labelling step (radius 1) — on the core of any block it is the pipeline of the
+whole image, hence the same for every chunking. Non-vacuity: `example` below. -/
+theorem blob_pipeline_chunk_independent {α β γ δ : Type} (sigma scale : Rat)
+    (resp : (Int → α) → Int → β) (isMax : (Int → β) → Int → γ) (lab : (Int → γ) → Int → δ)
+    (hresp : LocalOp (scipyGaussRadius (sigma / scale)) resp) (hmax : LocalOp (Py.ceil (sigma / scale)) isMax)
+    (hlab : LocalOp 1 lab)
+    (lo hi : Int) (img blk : Int → α) (hblk : ∀ p, lo ≤ p → p < hi → blk p = img p) (q : Int)
+    (h1 : lo + (logDepth sigma scale).2 ≤ q) (h2 : q < hi - (logDepth sigma scale).2) :
+    lab (isMax (resp blk)) q = lab (isMax (resp img)) q := by
+  have L := local_comp _ _ _ lab (local_comp _ _ resp isMax hresp hmax) hlab
+  exact window_agrees _ _ lo hi _ L (log_depth_covers sigma scale) img blk hblk q h1 h2
+
+/-- non-vacuity: a three-point moving sum is local with radius 1, and σ = 3/2 px gives depth 9 ≥ 6 + 2 + 1 -/
+example : LocalOp 1 (fun (f : Int → Int) q => f (q - 1) + f q + f (q + 1)) := by
+  intro f g q h
+  simp only
+  rw [h (q - 1) (by omega) (by omega), h q (by omega) (by omega), h (q + 1) (by omega) (by omega)]
+
+example : (logDepth (3 / 2) 1).2 = 9 ∧ scipyGaussRadius (3 / 2) = 6 ∧ (dogDepth (3 / 2) (12 / 5) 1).2.2 = 13 := by decide +kernel
 
 theorem ceil_half (n : Int) : Py.ceil ((n : Rat) / 2) = (n + 1) / 2 := by
   have h1 := Py.le_ceil ((n : Rat) / 2)
